@@ -3,7 +3,7 @@ obligation set (specs/basic_runtime.py, `_maybe_acquire_max_concurrent_runs#befo
 
 
 def run(tier, seed, repo):
-    from pyvc.astcheck import awaited_call_under_with, no_await_before_with, yields_under_with
+    from pyvc.astcheck import attr_initialised_as, awaited_call_under_with, no_await_before_with, yields_under_with
     from pyvc.extract import Repo
     r = Repo(repo)
     mod, cls = "workflows.plugins.basic", "BasicRuntime"
@@ -13,7 +13,10 @@ def run(tier, seed, repo):
     obs += no_await_before_with(r, mod, cls, "_maybe_acquire_max_concurrent_runs", "sem")
     obs += awaited_call_under_with(r, mod, cls, "run_workflow", "registered.workflow_run_fn",
                                    "self._maybe_acquire_max_concurrent_runs(")
-    if len(obs) < 3:
+    # the section contract treats the table as a dict; that an entry cannot outlive the runs that use its semaphore
+    # (so that a recycled id() of a dead instance never inherits a semaphore) rests on the table being weak-valued
+    obs += attr_initialised_as(r, mod, cls, "_max_concurrent_runs", "weakref.WeakValueDictionary")
+    if len(obs) < 4:
         obs.append({"id": f"{mod}.{cls}/structure-found", "status": "refuted", "backend": "ast",
                     "detail": "the limited branch / the gated run call were not found where the contract expects them"})
     return {
